@@ -90,8 +90,27 @@ Theorem C01_seen_size_after_repair :
   seen_after false w_seen_text ka = Some INCONSISTENT /\
   seen_after false w_seen_late ka = Some INCONSISTENT /\
   seen_after false w_seen_late kb = Some 9.
-Proof. exact (conj (proj1 (proj2 seen_witness)) (proj2 (proj2 (proj2 seen_witness)))). Qed.
+Proof. exact seen_size_after_repair. Qed.
 Print Assumptions C01_seen_size_after_repair.
+
+(* FULL STATEMENT for the shortcut, now true of the model: for every segment (any events the ingest path
+   can produce, no guard on the mixing of types, duplicated keys allowed; any limit, any leftover bloom
+   keys), if AllSeenColumnSizes ends with a constant length s for column k, then in every flushed block
+   that has the column the reader that is given s returns exactly what the length-walking reader
+   returns.  (Invariant: a recorded constant length is the encoded length of every record of the
+   column in the open block; it only ever changes to INCONSISTENT; consolidation to numbers keeps
+   9-byte records, consolidation to text gives the length up.) *)
+Theorem C01_seen_size_sound : forall (fc : fconv),
+  (forall b, N.of_nat (length (ff fc b)) < 65533) ->
+  forall card, card < 65536 -> forall blooms (blocks : list (list event)),
+  Forall (fun evs => evs <> [] /\ Forall (fun e => event_ok e = true) evs) blocks ->
+  forall k s, get k (st_seen (snd (ingest_blocks fc false card (init_store blooms) blocks))) = Some s ->
+  s <> INCONSISTENT ->
+  forall fb blk, In fb (fst (ingest_blocks fc false card (init_store blooms) blocks)) ->
+    get k (fb_cols fb) = Some blk ->
+    read_col s (N.to_nat (fb_n fb)) blk = read_col INCONSISTENT (N.to_nat (fb_n fb)) blk.
+Proof. exact seen_size_sound. Qed.
+Print Assumptions C01_seen_size_sound.
 
 (* PRE-FIX documentation ([pre = true], no longer the code; class
    constant_length_shortcut_after_text_conversion, a regression is reported by the harness):
